@@ -532,6 +532,7 @@ func (c *streamCtx) dirC19() []genCase {
 						}
 						if failT >= 0 {
 							b.aws.TermInAsgFail = []string{b.instanceOf(2 + failT)}
+							b.aws.ErrCode = []string{"", "ValidationError", "Throttling"}[(failT+failD+4)%3]
 						}
 						if failD >= 0 {
 							b.k8s.DeleteFail = []string{b.nodeName(2 + failD)}
